@@ -271,3 +271,105 @@ Fixpoint find_sess (p : sess -> bool) (l : list sess) (i : nat) : option nat :=
   | [] => None
   | x :: r => if p x then Some i else find_sess p r (S i)
   end.
+
+(* ---- limiter instances: Overloader.connLimiter is a POINTER that Update replaces ----
+   overloader.go updateConnLimiter: MaxConn <= 0 sets o.connLimiter = nil (no limit);
+   MaxConn > 0 with no limiter builds a FRESH one (newConnLimiter: tmp = now = 0);
+   otherwise connLimiter.update stores the new limit into the existing instance.
+   takeConnFor reads the pointer, takes on that instance and records
+   connHolders[sess] = that instance; releaseConnFor releases on the RECORDED instance.
+   So every connection belongs for good to the instance its hook read: the system is a
+   family of instances, each evolving by [lstep true] on its own connections; connections
+   that met no limiter are admitted without a slot.  A connection is named by
+   (instance, index within the instance).
+   Over-approximation: the code holds connLimiterLock for reading across one take() and
+   for writing across an Update, so an Update cannot fall between the steps of a take;
+   the model allows that too. *)
+Inductive upc := UIdle | ULive | UDone.
+
+Record mstate := mkM { m_gens : list lstate; m_cur : option nat; m_unl : list upc }.
+
+Inductive mev :=
+| MOn (l : Z)                  (* Update, MaxConn = l > 0, no limiter: newConnLimiter l *)
+| MOff                         (* Update, MaxConn <= 0: connLimiter = nil *)
+| MIn (g : nat) (e : lev)      (* event of a connection of instance g / EUpdate on it *)
+| MUnl (i : nat) (up : bool).  (* connection i met no limiter: admitted / disconnected *)
+
+Definition minit : mstate := mkM [] None [].
+Definition ldef : lstate := linit 1.
+
+(* new connections and limit stores go to the CURRENT instance only *)
+Definition targets_current (e : lev) : bool :=
+  match e with EConnect _ _ true | EUpdate _ => true | _ => false end.
+
+Definition is_cur (cur : option nat) (g : nat) : bool :=
+  match cur with Some c => Nat.eqb c g | None => false end.
+
+(* [roc = true]: the variant in which releaseConnFor releases through the plugin's
+   CURRENT limiter (o.releaseConn()) instead of the recorded one: the session leaves its
+   own instance's books untouched and the current instance (if any) is decremented. *)
+Definition cross_release (M : mstate) (g i : nat) : option mstate :=
+  let sg := getn ldef g (m_gens M) in
+  let x := getn sess0 i (l_ss sg) in
+  match s_pc x with
+  | LClosing =>
+      if s_held x then
+        let sg' := mkL (l_c sg) (l_hw sg)
+                       (upd sess0 i (mkS LDone false (s_took x) (s_rel x + 1) (s_rej x)) (l_ss sg)) in
+        let gens1 := upd ldef g sg' (m_gens M) in
+        match m_cur M with
+        | Some c =>
+            let sc := getn ldef c gens1 in
+            Some (mkM (upd ldef c (mkL (c_sub_tmp (c_sub_now (l_c sc))) (l_hw sc) (l_ss sc)) gens1)
+                      (m_cur M) (m_unl M))
+        | None => Some (mkM gens1 (m_cur M) (m_unl M))
+        end
+      else None
+  | _ => None
+  end.
+
+Definition is_holder_closing (s : lstate) (e : lev) : bool :=
+  match e with
+  | EStep i => let x := getn sess0 i (l_ss s) in
+               match s_pc x with LClosing => s_held x | _ => false end
+  | _ => false
+  end.
+
+Definition mstep (roc : bool) (M : mstate) (ev : mev) : option mstate :=
+  match ev with
+  | MOn l =>
+      match m_cur M with
+      | None => if 0 <? l then Some (mkM (m_gens M ++ [linit l]) (Some (length (m_gens M))) (m_unl M))
+                else None
+      | Some _ => None
+      end
+  | MOff => Some (mkM (m_gens M) None (m_unl M))
+  | MIn g e =>
+      if Nat.ltb g (length (m_gens M)) && (negb (targets_current e) || is_cur (m_cur M) g) then
+        let sg := getn ldef g (m_gens M) in
+        if roc && is_holder_closing sg e && negb (is_cur (m_cur M) g) then
+          match e with EStep i => cross_release M g i | _ => None end
+        else
+          match lstep true sg e with
+          | Some sg' => Some (mkM (upd ldef g sg' (m_gens M)) (m_cur M) (m_unl M))
+          | None => None
+          end
+      else None
+  | MUnl i up =>
+      match getn UIdle i (m_unl M), up, m_cur M with
+      | UIdle, true, None => Some (mkM (m_gens M) (m_cur M) (upd UIdle i ULive (m_unl M)))
+      | ULive, false, _ => Some (mkM (m_gens M) (m_cur M) (upd UIdle i UDone (m_unl M)))
+      | _, _, _ => None
+      end
+  end.
+
+Fixpoint mrun (roc : bool) (M : mstate) (tr : list mev) : option mstate :=
+  match tr with
+  | [] => Some M
+  | e :: r => match mstep roc M e with Some M' => mrun roc M' r | None => None end
+  end.
+
+Definition unl_live (p : upc) : Z := match p with ULive => 1 | _ => 0 end.
+(* all sessions currently admitted, through whichever instance or through none *)
+Definition madmitted (M : mstate) : Z :=
+  sumz admitted (m_gens M) + sumz unl_live (m_unl M).
